@@ -11,6 +11,8 @@ from .model import unparse
 def eval3(e: ast.expr, atom: Callable[[ast.expr], Optional[str]], env: dict[str, bool]) -> Optional[bool]:
     """True / False / None (unknown) of expression e when the atoms named by `atom` take the values in env."""
     a = atom(e)
+    if isinstance(a, ast.AST):  # the atom function rewrote the expression (e.g. expanded a local)
+        return eval3(a, atom, env)
     if a is not None:
         neg = a.startswith("!")
         v = env.get(a.lstrip("!"))
